@@ -69,6 +69,23 @@ fn run(v: &Value) -> Value {
                 .collect();
             json!({"ok": true, "output": arr})
         }
+        "parse" => {
+            // the parse tree as nested token start offsets: text = start, element = [start of open tag, start of close tag, children]
+            fn dump(parts: &[chiritori::parser::ContentPart]) -> Vec<Value> {
+                parts
+                    .iter()
+                    .map(|p| match p {
+                        chiritori::parser::ContentPart::Text(t) => json!(t.token.start),
+                        chiritori::parser::ContentPart::Element(e) => {
+                            json!([e.start_token.start, e.end_token.start, dump(&e.children)])
+                        }
+                    })
+                    .collect()
+            }
+            let toks = chiritori::tokenizer::tokenize(&src, &ds, &de);
+            let parsed = chiritori::parser::parse(&toks);
+            json!({"ok": true, "output": dump(&parsed)})
+        }
         _ => json!({"ok": false, "error": "unknown mode"}),
     }
 }
